@@ -372,7 +372,7 @@ def run(ctx: Ctx, rs: RuleSet, tier: str):
   rule_c = 'FRESH.no-build-cache'
   rs.declare(rule_c, 'no function on the build path returns a cached result '
              '(distinct but equal Buildables are built separately)', 1)
-  closure = ctx.cg.reachable([BUILD], kinds=('exact', 'nested', 'proto'))
+  closure = ctx.cg.reachable([BUILD], kinds=('exact', 'nested', 'proto', 'inst'))
   accepted = {
       'fiddle._src.reraised_exception.make_exception_class':
           'error path only: the proxy exception *class* per exception type, '
@@ -405,7 +405,7 @@ def run(ctx: Ctx, rs: RuleSet, tier: str):
   rule = 'DOM.single-invocation'
   rs.declare(rule, 'the build callback invokes call_buildable at most once '
              'per visit (not inside a loop)', 1)
-  for f in ctx.func(BUILD).nested.values():
+  for f in ctx.p.callbacks(ctx.func(BUILD)):
     for n in walk_function(f.node):
       if isinstance(n, (ast.For, ast.While, ast.ListComp, ast.GeneratorExp)):
         for sub in ast.walk(n):
